@@ -621,12 +621,14 @@ mod huffman {
     impl<T: Ord + Clone> Huffman<T> {
         /// Verification hook: assemble a code from explicit `(symbol, bits, code)` triples (`code` right-aligned in
         /// `bits` bits), using the real `insert_decode` for the decoding table. The caller is responsible for the
-        /// triples forming a prefix code.
-        pub fn verif_from_triples(triples: &[(T, usize, u64)]) -> Self {
+        /// triples forming a prefix code. With `fill_encode` false only the decoding table is built.
+        pub fn verif_from_triples(triples: &[(T, usize, u64)], fill_encode: bool) -> Self {
             let mut encode = BTreeMap::new();
             let mut decode: [Decode<T>; 256] = core::array::from_fn(|_| Decode::Void);
             for (sym, bits, code) in triples {
-                encode.insert(sym.clone(), (*bits, *code));
+                if fill_encode {
+                    encode.insert(sym.clone(), (*bits, *code));
+                }
                 Self::insert_decode(&mut decode, sym, *bits, *code << (64 - *bits));
             }
             Huffman { encode, decode }
@@ -903,7 +905,12 @@ pub mod verif_hooks {
     impl<B: Ord + Clone> Code<B> {
         /// A code assembled from explicit `(symbol, bits, code)` triples through the real table insertion.
         pub fn from_triples(triples: &[(B, usize, u64)]) -> Self {
-            Code(Huffman::verif_from_triples(triples))
+            Code(Huffman::verif_from_triples(triples, true))
+        }
+
+        /// As `from_triples`, decoding table only (the encoding map stays empty).
+        pub fn decode_only(triples: &[(B, usize, u64)]) -> Self {
+            Code(Huffman::verif_from_triples(triples, false))
         }
 
         /// The code `create_from` yields for empty statistics (empty map, all-void table).
